@@ -11,7 +11,7 @@ import (
 // two first-time callers race on the write. Run with -race: the race detector
 // reports the race while the defect is present.
 func TestVerifWitnessStateNamesRace(t *testing.T) {
-	for i := 0; i < 50; i++ {
+	for i := 0; i < 200; i++ {
 		m := New(context.Background(), Schema{"A": {}, "B": {}}, nil)
 		var wg sync.WaitGroup
 		for g := 0; g < 4; g++ {
@@ -29,7 +29,7 @@ func TestVerifWitnessStateNamesRace(t *testing.T) {
 // Witness for the Clock(nil) defect (C12): Clock reads m.stateNames under
 // activeStatesMx only, while SetSchema/verifyStates replaces it under schemaMx.
 func TestVerifWitnessClockNamesRace(t *testing.T) {
-	for i := 0; i < 20; i++ {
+	for i := 0; i < 60; i++ {
 		m := New(context.Background(), Schema{"A": {}, "B": {}}, nil)
 		var wg sync.WaitGroup
 		wg.Add(2)
@@ -49,7 +49,7 @@ func TestVerifWitnessClockNamesRace(t *testing.T) {
 }
 
 func verifWitnessRaceWithSetSchema(reader func(m *Machine)) {
-	for i := 0; i < 20; i++ {
+	for i := 0; i < 60; i++ {
 		m := New(context.Background(), Schema{"A": {}, "B": {}}, nil)
 		var wg sync.WaitGroup
 		wg.Add(2)
